@@ -96,7 +96,16 @@ class Gen(object):
                 opts += ["call", "call"]
             if self.oos_types.get("count") == "int":
                 opts += ["oos"]
+            if "hof" in self.features:
+                opts += ["fold"]
         k = self.pick(opts)
+        if k == "fold":
+            self.labels.add("hof")
+            op = self.pick(["+", "-", "*"])
+            if self.chance(50):
+                return ("call", "fold", [self.e_arr(d + 1), ("funclit", ["acc", "x"], [("return", ("bin", op, ("local", "acc"), ("local", "x")))]), ("int", self.i(0, 3))])
+            nonempty = ("arrlit", [self.e_int(d + 2) for _ in range(self.i(1, 4))])
+            return ("call", "reduce", [nonempty, ("funclit", ["acc", "x"], [("return", ("bin", op, ("local", "acc"), ("local", "x")))])])
         if k == "lit":
             return ("int", self.i(-9, 20))
         if k == "local":
@@ -184,9 +193,14 @@ class Gen(object):
             opts += ["local"]
         if d < 3:
             opts += ["and", "or", "not", "xor", "scmp", "isabsent", "haskey", "ispred"]
+            if "hof" in self.features:
+                opts += ["anyevery"]
         if self.in_main:
             opts += ["nr"]
         k = self.pick(opts)
+        if k == "anyevery":
+            self.labels.add("hof")
+            return ("call", self.pick(["any", "every"]), [self.e_arr(d + 1), ("funclit", ["x"], [("return", ("bin", self.pick([">", "<=", "=="]), ("local", "x"), ("int", self.i(0, 5))))])])
         if k == "lit":
             return ("bool", self.chance(50))
         if k == "local":
